@@ -16,14 +16,19 @@ package vpack
 // that buckets collide and evict; d lives in another bucket — x rounds {255,256,555}
 // (r, r+1, r+300; r-1 arises as 256->255, crossing a varuint size boundary) x periods {0,1}
 // x steps {0,1,2,3,253} x proposals {bottom, p (4 fields), q (3 fields, oper absent)}.
-//   seq/full16   full product (540 votes), table size 16, all sequences of <= 3 votes
-//   seq/core16   state-relevant product (identities x rounds x proposals; period/step derived),
-//                table size 16, depth 4 (36 votes) and depth 5 (18 votes) in the thorough tier
-//   seq/core32   same votes on 32-entry tables (a,c collide, b does not), depth 3 / 4
-//   seq/window   NON-INITIAL start: the pair has already exchanged 7 votes with 7 distinct
+//   seq/full16   full product (540 votes), 16-entry tables, all sequences of <= 3 votes
+//                (thorough: <= 4)
+//   seq/core16-36 state-relevant product (4 identities x rounds x proposals = 36 votes; period
+//                and step derived, still varied), 16-entry tables, explored UNTIL NO NEW STATE
+//                APPEARS (7 201 states, closes at depth 7): every reachable table state of this
+//                alphabet, i.e. vote sequences of any length over it
+//   seq/core32-36 same votes on 32-entry tables (a,c collide, b does not), to closure (2 656)
+//   seq/window16 NON-INITIAL start: the pair has already exchanged 7 votes with 7 distinct
 //                proposals (window full), rounds at 2^64-2; alphabet = {oldest, newest, 2 new,
-//                bottom proposals} x {a,b,c} x rounds {2^64-2, 2^64-1, 255}; depth 3 / 4 — the
-//                window wraps and evicts, round deltas run into the uint64 edge.
+//                bottom proposals} x {a,b,c} x rounds {2^64-2, 2^64-1, 255} = 45 votes, to
+//                closure (1 764 states) — the window wraps and evicts, round deltas run into the
+//                uint64 edge.
+//   seq/core16-54 (thorough) 6 identities x rounds x proposals, to closure (35 011 states)
 // State key = complete encoder dynamicTableState (3 LRU tables incl. MRU bits, proposal
 // window incl. head/size, lastRnd), physical layout, hashed: merged states are identical
 // objects, nothing is abstracted.
@@ -64,12 +69,17 @@ package vpack
 // non-canonical-but-valid msgpack beyond key order / single-byte edits as encoder input
 // (production callers always pass protocol.Encode output, agreement/actions.go).
 //
-// Mutants (bin/mut, quick tier) — see the final report / checks.d note:
-//   lru_table.go  fetch(): MRU bit not touched on a decoder hit            -> DETECTED (desync)
-//   proposal_window.go byRef(): physical slot off by one                   -> DETECTED
-//   proposal_window.go insertNew(): eviction overwrites head+1             -> DETECTED (seq/window only)
-//   dynamic_vpack.go Decompress: lastRnd not updated on a delta-coded rnd   -> DETECTED
-//   dynamic_vpack.go fetch bound check removed                             -> DETECTED (panic on out-of-range ref)
+// Mutants (bin/mut, quick tier; all DETECTED):
+//   lru_table.go fetch(): MRU bit not touched on a decoder hit      -> C42:desync at depth 3
+//   lru_table.go lookup(): MRU bit not touched on an encoder slot-1 hit -> C42:desync at depth 3
+//   proposal_window.go byRef(): physical slot off by one             -> C42:stateful-roundtrip, depth 2
+//   proposal_window.go byRef(): modulo dropped (only wrong once the window has wrapped)
+//                                                                    -> C42:panic in seq/window16 only
+//   dynamic_vpack.go Decompress: lastRnd not advanced after a +1 delta -> C42:desync at depth 2
+//   lru_table.go fetch(): bound check removed                        -> C42:decoder-panic (enum/frames)
+//
+// Finding on the unchanged tree: C42:misordered-r-keys / C42:misordered-prop-keys, see
+// /verif/findings/C42-misordered-map-keys.
 
 import (
 	"bytes"
@@ -77,6 +87,8 @@ import (
 	"fmt"
 	"math"
 	"reflect"
+	"runtime/debug"
+	"slices"
 	"sync"
 	"sync/atomic"
 	"testing"
@@ -344,36 +356,47 @@ func c42name(id c42ident, rnd, per, step uint64, pr c42prop) string {
 // ---------------------------------------------------------------------------------------
 // state handling
 
-func c42dumpSnd(b []byte, t *lruTable[addressValue]) []byte {
-	b = binary.AppendUvarint(b, uint64(t.numBuckets))
-	for i := range t.buckets {
-		b = append(b, t.buckets[i].slots[0][:]...)
-		b = append(b, t.buckets[i].slots[1][:]...)
-	}
-	return append(b, t.mru...)
-}
-
-func c42dumpPk(b []byte, t *lruTable[pkSigPair]) []byte {
-	b = binary.AppendUvarint(b, uint64(t.numBuckets))
-	for i := range t.buckets {
-		for s := 0; s < 2; s++ {
-			b = append(b, t.buckets[i].slots[s].pk[:]...)
-			b = append(b, t.buckets[i].slots[s].sig[:]...)
+// c42dump is a canonical, lossless serialisation of the table state (empty buckets and
+// empty window entries are run-length marked instead of written out).
+func c42dump(b []byte, s *dynamicTableState) []byte {
+	b = binary.BigEndian.AppendUint64(b[:0], s.lastRnd)
+	var zsnd twoSlotBucket[addressValue]
+	var zpk twoSlotBucket[pkSigPair]
+	b = binary.AppendUvarint(b, uint64(s.sndTable.numBuckets))
+	for i := range s.sndTable.buckets {
+		if s.sndTable.buckets[i] == zsnd {
+			b = append(b, 0)
+			continue
 		}
+		b = append(b, 1)
+		b = append(b, s.sndTable.buckets[i].slots[0][:]...)
+		b = append(b, s.sndTable.buckets[i].slots[1][:]...)
 	}
-	return append(b, t.mru...)
-}
-
-func c42dump(s *dynamicTableState) []byte {
-	b := make([]byte, 0, 6000)
-	b = binary.BigEndian.AppendUint64(b, s.lastRnd)
-	b = c42dumpSnd(b, s.sndTable)
-	b = c42dumpPk(b, s.pkTable)
-	b = c42dumpPk(b, s.pk2Table)
+	b = append(b, s.sndTable.mru...)
+	for _, t := range []*lruTable[pkSigPair]{s.pkTable, s.pk2Table} {
+		b = binary.AppendUvarint(b, uint64(t.numBuckets))
+		for i := range t.buckets {
+			if t.buckets[i] == zpk {
+				b = append(b, 0)
+				continue
+			}
+			b = append(b, 1)
+			for k := 0; k < 2; k++ {
+				b = append(b, t.buckets[i].slots[k].pk[:]...)
+				b = append(b, t.buckets[i].slots[k].sig[:]...)
+			}
+		}
+		b = append(b, t.mru...)
+	}
 	w := &s.proposalWindow
 	b = append(b, byte(w.head), byte(w.size))
 	for i := range w.entries {
 		e := &w.entries[i]
+		if *e == (proposalEntry{}) {
+			b = append(b, 0)
+			continue
+		}
+		b = append(b, 1)
 		b = append(b, e.dig[:]...)
 		b = append(b, e.encdig[:]...)
 		b = append(b, e.oprop[:]...)
@@ -381,6 +404,30 @@ func c42dump(s *dynamicTableState) []byte {
 		b = append(b, e.operLen, e.mask)
 	}
 	return b
+}
+
+// c42equal compares two table states field by field; it returns "" or the name of the first
+// differing component.
+func c42equal(a, b *dynamicTableState) string {
+	switch {
+	case a.lastRnd != b.lastRnd:
+		return "lastRnd"
+	case a.proposalWindow != b.proposalWindow:
+		return "proposalWindow"
+	case a.sndTable.numBuckets != b.sndTable.numBuckets || !slices.Equal(a.sndTable.buckets, b.sndTable.buckets):
+		return "sndTable.buckets"
+	case !bytes.Equal(a.sndTable.mru, b.sndTable.mru):
+		return "sndTable.mru"
+	case a.pkTable.numBuckets != b.pkTable.numBuckets || !slices.Equal(a.pkTable.buckets, b.pkTable.buckets):
+		return "pkTable.buckets"
+	case !bytes.Equal(a.pkTable.mru, b.pkTable.mru):
+		return "pkTable.mru"
+	case a.pk2Table.numBuckets != b.pk2Table.numBuckets || !slices.Equal(a.pk2Table.buckets, b.pk2Table.buckets):
+		return "pk2Table.buckets"
+	case !bytes.Equal(a.pk2Table.mru, b.pk2Table.mru):
+		return "pk2Table.mru"
+	}
+	return ""
 }
 
 func c42copyState(dst, src *dynamicTableState) {
@@ -415,16 +462,19 @@ func c42shapeCheck() error {
 }
 
 type c42sys struct {
-	size    uint
-	alpha   []c42op
-	stEnc   *StatelessEncoder
-	stDec   *StatelessDecoder
-	enc     *StatefulEncoder
-	dec     *StatefulDecoder
-	lastHdr [2]byte
-	encDump []byte // dump of the encoder state after the last vote (nil: not computed)
-	initErr error
-	saved   *atomic.Int64 // metric: bytes saved by the stateful layer
+	size     uint
+	alpha    []c42op
+	stEnc    *StatelessEncoder
+	stDec    *StatelessDecoder
+	enc      *StatefulEncoder
+	dec      *StatefulDecoder
+	lastHdr  [2]byte
+	encDump  []byte // scratch for the state key
+	keyValid bool
+	bufs     [5][]byte // scratch output buffers of the stages
+	pool     *sync.Pool
+	initErr  error
+	saved    *atomic.Int64 // metric: bytes saved by the stateful layer
 }
 
 func c42newSys(size uint, alpha []c42op) *c42sys {
@@ -440,51 +490,66 @@ func c42newSys(size uint, alpha []c42op) *c42sys {
 }
 
 func (s *c42sys) clone() *c42sys {
-	c := c42newSys(s.size, s.alpha)
+	var c *c42sys
+	if s.pool != nil {
+		if x := s.pool.Get(); x != nil {
+			c = x.(*c42sys)
+		}
+	}
+	if c == nil || c.size != s.size {
+		c = c42newSys(s.size, s.alpha)
+	}
 	c42copyState(&c.enc.dynamicTableState, &s.enc.dynamicTableState)
 	c42copyState(&c.dec.dynamicTableState, &s.dec.dynamicTableState)
-	c.lastHdr, c.initErr, c.saved = s.lastHdr, s.initErr, s.saved
+	c.alpha, c.lastHdr, c.initErr, c.saved, c.pool = s.alpha, s.lastHdr, s.initErr, s.saved, s.pool
 	return c
 }
 
+func (s *c42sys) buf(i, n int) []byte {
+	if cap(s.bufs[i]) < n {
+		s.bufs[i] = make([]byte, 0, n)
+	}
+	return s.bufs[i][:0]
+}
+
 // send pushes one msgpack vote through the four stages and applies the oracle.
-func (s *c42sys) send(msgp []byte) error {
-	sl, err := s.stEnc.CompressVote(make([]byte, 0, MaxCompressedVoteSize), msgp)
+func (s *c42sys) send(msgp []byte) (verr error) {
+	defer func() {
+		if e := recover(); e != nil {
+			verr = ve.Violationf("C42:panic", "panic in the compression pipeline on a valid vote: %v\n%s", e, debug.Stack())
+		}
+	}()
+	sl, err := s.stEnc.CompressVote(s.buf(0, MaxCompressedVoteSize), msgp)
 	if err != nil {
 		return ve.Violationf("C42:stateless-reject-valid", "StatelessEncoder rejected a representable canonical vote: %v", err)
 	}
-	slCopy := append([]byte(nil), sl...)
-	comp, err := s.enc.Compress(make([]byte, 0, MaxCompressedVoteSize), sl)
+	slCopy := append(s.buf(3, MaxCompressedVoteSize), sl...)
+	comp, err := s.enc.Compress(s.buf(1, MaxCompressedVoteSize), sl)
 	if err != nil {
 		return ve.Violationf("C42:stateful-compress-error", "StatefulEncoder.Compress failed on a stateless frame: %v", err)
 	}
 	if !bytes.Equal(sl, slCopy) {
 		return ve.Violationf("C42:compress-clobbers-input", "Compress modified its input")
 	}
-	wire := append([]byte(nil), comp...)
-	sl2, err := s.dec.Decompress(make([]byte, 0, MaxCompressedVoteSize), wire)
+	wire := comp
+	sl2, err := s.dec.Decompress(s.buf(2, MaxCompressedVoteSize), wire)
 	if err != nil {
 		return ve.Violationf("C42:decompress-error", "StatefulDecoder.Decompress rejected the encoder's own frame (hdr %02x %02x): %v", wire[0], wire[1], err)
 	}
 	if !bytes.Equal(sl2, sl) {
 		return ve.Violationf("C42:stateful-roundtrip", "stateful round trip differs (hdr %02x %02x):\n sent %x\n got  %x", wire[0], wire[1], sl, sl2)
 	}
-	out, err := s.stDec.DecompressVote(make([]byte, 0, MaxMsgpackVoteSize), sl2)
+	out, err := s.stDec.DecompressVote(s.buf(4, MaxMsgpackVoteSize), sl2)
 	if err != nil {
 		return ve.Violationf("C42:stateless-decompress-error", "StatelessDecoder rejected a round-tripped frame: %v", err)
 	}
 	if !bytes.Equal(out, msgp) {
 		return ve.Violationf("C42:roundtrip", "decompress(compress(v)) != v:\n sent %x\n got  %x", msgp, out)
 	}
-	de, dd := c42dump(&s.enc.dynamicTableState), c42dump(&s.dec.dynamicTableState)
-	s.encDump = de
-	if !bytes.Equal(de, dd) {
-		i := 0
-		for i < len(de) && i < len(dd) && de[i] == dd[i] {
-			i++
-		}
-		return ve.Violationf("C42:desync", "encoder and decoder table state differ after this vote (hdr %02x %02x; first difference at dump offset %d; lastRnd enc=%d dec=%d; window enc head/size=%d/%d dec=%d/%d)",
-			wire[0], wire[1], i, s.enc.lastRnd, s.dec.lastRnd, s.enc.proposalWindow.head, s.enc.proposalWindow.size, s.dec.proposalWindow.head, s.dec.proposalWindow.size)
+	s.keyValid = false
+	if diff := c42equal(&s.enc.dynamicTableState, &s.dec.dynamicTableState); diff != "" {
+		return ve.Violationf("C42:desync", "encoder and decoder table state differ after this vote in %s (hdr %02x %02x; lastRnd enc=%d dec=%d; window enc head/size=%d/%d dec=%d/%d)",
+			diff, wire[0], wire[1], s.enc.lastRnd, s.dec.lastRnd, s.enc.proposalWindow.head, s.enc.proposalWindow.size, s.dec.proposalWindow.head, s.dec.proposalWindow.size)
 	}
 	s.lastHdr = [2]byte{wire[0], wire[1]}
 	if s.saved != nil {
@@ -495,6 +560,7 @@ func (s *c42sys) send(msgp []byte) error {
 
 func c42seq(r *ve.Run, cov *ve.Coverage, name string, size uint, alpha []c42op, preamble [][]byte, depth int) {
 	var saved atomic.Int64
+	pool := &sync.Pool{}
 	q := &ve.Seq[*c42sys]{
 		Name:   name,
 		NumOps: len(alpha),
@@ -511,6 +577,7 @@ func c42seq(r *ve.Run, cov *ve.Coverage, name string, size uint, alpha []c42op, 
 				}
 			}
 			s.saved = &saved
+			s.pool = pool
 			return s
 		},
 		Clone: func(s *c42sys) *c42sys { return s.clone() },
@@ -521,10 +588,13 @@ func c42seq(r *ve.Run, cov *ve.Coverage, name string, size uint, alpha []c42op, 
 			return true, s.send(alpha[op].msgp)
 		},
 		Key: func(s *c42sys) string {
-			if s.encDump == nil {
-				s.encDump = c42dump(&s.enc.dynamicTableState)
-			}
+			s.encDump = c42dump(s.encDump, &s.enc.dynamicTableState)
 			return ve.HashKey(s.encDump)
+		},
+		Close: func(s *c42sys) {
+			if s.pool != nil {
+				s.pool.Put(s)
+			}
 		},
 		Observe:  func(s *c42sys) string { return fmt.Sprintf("%02x/%02x", s.lastHdr[0], s.lastHdr[1]) },
 		MaxDepth: depth,
@@ -776,12 +846,13 @@ type c42frameSeed struct {
 func c42checkFrame(r *ve.Run, f *c42fail, seed *c42frameSeed, frame []byte, what string) {
 	r.Eval()
 	s := seed.state.clone()
+	defer seed.state.pool.Put(s)
 	rep := map[string]any{"engine": "enum", "part": "frames", "seed": seed.name, "what": what, "frame": fmt.Sprintf("%x", frame)}
-	in := append([]byte(nil), frame...)
+	in := append(s.buf(2, MaxCompressedVoteSize+8), frame...)
 	var sl []byte
 	var err error
 	if r.Guard("C42:decoder-panic", rep, func() {
-		sl, err = s.dec.Decompress(make([]byte, 0, MaxCompressedVoteSize), in)
+		sl, err = s.dec.Decompress(s.buf(0, MaxCompressedVoteSize), in)
 	}) {
 		return
 	}
@@ -791,7 +862,7 @@ func c42checkFrame(r *ve.Run, f *c42fail, seed *c42frameSeed, frame []byte, what
 	}
 	var mp []byte
 	if r.Guard("C42:decoder-panic", rep, func() {
-		mp, err = s.stDec.DecompressVote(make([]byte, 0, MaxMsgpackVoteSize), sl)
+		mp, err = s.stDec.DecompressVote(s.buf(1, MaxMsgpackVoteSize), sl)
 	}) {
 		return
 	}
@@ -804,7 +875,7 @@ func c42checkFrame(r *ve.Run, f *c42fail, seed *c42frameSeed, frame []byte, what
 		f.report("C42:frame-not-a-vote", fmt.Sprintf("[%s] %s: frame accepted by both decoders but the result is not a decodable vote: %v\n out %x", seed.name, what, err, mp), rep)
 		return
 	}
-	re, err := s.stEnc.CompressVote(nil, mp)
+	re, err := s.stEnc.CompressVote(s.buf(3, MaxCompressedVoteSize), mp)
 	if err != nil {
 		// zero-valued required fields written explicitly (e.g. a reference to an empty slot)
 		// are still parsed; any rejection here means the decoder emitted something its own
@@ -812,7 +883,7 @@ func c42checkFrame(r *ve.Run, f *c42fail, seed *c42frameSeed, frame []byte, what
 		f.report("C42:frame-recompress", fmt.Sprintf("[%s] %s: accepted frame decodes to msgpack that CompressVote rejects: %v\n out %x", seed.name, what, err, mp), rep)
 		return
 	}
-	want := append([]byte(nil), sl...)
+	want := append(s.buf(4, MaxCompressedVoteSize), sl...)
 	want[0] &= bitPer | bitDig | bitEncDig | bitOper | bitOprop | bitStep // two reserved bits are ignored by the decoder
 	if !bytes.Equal(re, want) {
 		f.report("C42:frame-inconsistent", fmt.Sprintf("[%s] %s: accepted frame is not consistent: stateful decoder emitted %x, its msgpack re-compresses to %x", seed.name, what, sl, re), rep)
@@ -1056,6 +1127,7 @@ func TestVerif_C42(t *testing.T) {
 				}
 			}
 			before := s.clone()
+			before.pool = &sync.Pool{}
 			sl, err := s.stEnc.CompressVote(nil, vote)
 			if err != nil {
 				f.report("C42:stateless-reject-valid", fmt.Sprintf("frame seed %s: %v", name, err), nil)
